@@ -13,6 +13,7 @@ import (
 	"strconv"
 	"strings"
 	"time"
+	"unicode/utf16"
 
 	astisub "github.com/asticode/go-astisub"
 )
@@ -268,6 +269,17 @@ func sampleDocs() map[string][][]byte {
 		}
 		o["ssa"] = append(o["ssa"], b.Bytes())
 	}
+	// TTML: content after the root element (a comment, white space, text) and a UTF-16 document with a byte order
+	// mark and a character outside the BMP: whatever the reader makes of them, every delivery gives the same answer
+	{
+		base := `<tt xmlns="http://www.w3.org/ns/ttml"><body><div><p begin="00:00:01.000" end="00:00:02.000">emoji 😀 x</p></div></body></tt>`
+		o["ttml"] = append(o["ttml"], []byte(base+"\n<!-- trailing comment -->\n"), []byte(base+"\ntrailing text"), []byte(base+strings.Repeat(" ", 5000)+"<!-- far -->x"))
+		u16 := []byte{0xff, 0xfe}
+		for _, r := range utf16.Encode([]rune(base)) {
+			u16 = append(u16, byte(r), byte(r>>8))
+		}
+		o["ttml"] = append(o["ttml"], u16)
+	}
 	// transport streams carrying teletext: built by the harness (the repository has no sample)
 	if ttSample != nil {
 		for seed := uint64(0); seed < 3; seed++ {
@@ -406,8 +418,8 @@ func init() {
 		sort.Strings(fs)
 		for _, f := range fs {
 			for di, d := range docs[f] {
-				if !c.thorough && di%3 != int(c.seed)%3 && len(docs[f]) > 6 {
-					continue
+				if !c.thorough && di%3 != int(c.seed)%3 && len(docs[f]) > 6 && len(d) > 1500 {
+					continue // the quick tier takes a third of the larger documents per seed, and every small one
 				}
 				// every single split point (documents up to ~2 kB)
 				step := 1
@@ -490,8 +502,8 @@ func init() {
 		sort.Strings(fs)
 		for _, f := range fs {
 			for di, d := range docs[f] {
-				if !c.thorough && di%3 != int(c.seed)%3 && len(docs[f]) > 6 {
-					continue
+				if !c.thorough && di%3 != int(c.seed)%3 && len(docs[f]) > 6 && len(d) > 1500 {
+					continue // the quick tier takes a third of the larger documents per seed, and every small one
 				}
 				maxK := len(d)
 				if f == "ttml" { // up to the end of the root element
@@ -522,6 +534,9 @@ func init() {
 			c.do(fmt.Sprintf("io.fault srt %s -1 eof -", encBytes([]byte("1\n00:00:01,000 --> 00:00:02,000\n"+long+"\n\n2\n00:00:03,000 --> 00:00:04,000\nx\n"))))
 			c.do(fmt.Sprintf("io.fault vtt %s -1 eof -", encBytes([]byte("WEBVTT\n\n00:00:01.000 --> 00:00:02.000\n"+long+"\n\n00:00:03.000 --> 00:00:04.000\nx\n"))))
 			c.do(fmt.Sprintf("io.fault ssa %s -1 eof -", encBytes([]byte("[Script Info]\nTitle: x\n\n[Events]\nFormat: Start, End, Text\nDialogue: 0:00:01.00,0:00:02.00,{\\p1}"+long+"\nDialogue: 0:00:03.00,0:00:04.00,x\n"))))
+			c.do(fmt.Sprintf("io.fault ssa %s -1 eof -", encBytes([]byte("[Script Info]\nTitle: x\n\n[Fonts]\nfontname: a.ttf\n"+long+"\n\n[Events]\nFormat: Start, End, Text\nDialogue: 0:00:03.00,0:00:04.00,x\n"))))
+			c.do(fmt.Sprintf("io.fault srt %s -1 eof -", encBytes([]byte(long+"\n1\n00:00:03,000 --> 00:00:04,000\nx\n"))))
+			c.do(fmt.Sprintf("io.fault vtt %s -1 eof -", encBytes([]byte("WEBVTT\n\nNOTE "+long+"\n\n00:00:03.000 --> 00:00:04.000\nx\n"))))
 			c.count("long-lines")
 		}
 	}}
@@ -543,6 +558,18 @@ func init() {
 		k := int(atoi64(a[2]))
 		w := &faultWriter{cap: k}
 		err := writeRaw(a[0], s, w)
+		if a[0] == "ttml" {
+			// the same destination fault under the writer's options
+			for _, ind := range []string{"", "\t"} {
+				w2 := &faultWriter{cap: k}
+				var full2 bytes.Buffer
+				if e := s.WriteToTTML(&full2, astisub.WriteToTTMLWithIndentOption(ind)); e == nil && k < full2.Len() {
+					if e2 := s.WriteToTTML(w2, astisub.WriteToTTMLWithIndentOption(ind)); e2 == nil {
+						return fmt.Sprintf("ok-incomplete-with-indent-%q", ind)
+					}
+				}
+			}
+		}
 		if err != nil {
 			return "err"
 		}
